@@ -163,6 +163,49 @@ int main(int argc, char** argv)
                         ctx.each([&] { return chk.describe(pr.second, av, {}); },
                                  [&](mc::Report& rep) { chk.run_after_replace(pr.first, old, pr.second, av, rep, idx); });
                     });
+            // sizes: a wide declaration (26 options a-z, 26 toggles A-Z in 3 groups) and long bundles: one letter that is not a
+            // declared toggle hidden at the front / in the middle / at the end of a bundle of 27, 65, 257 and 1000 letters
+            {
+                Decl W;
+                const char* groups[] = { "", "zgroup", "agroup" };
+                for (int i = 0; i < 26; i++)
+                {
+                    auto o = Item::opt(std::string("opt-") + static_cast<char>('a' + i), std::string(1, static_cast<char>('a' + i)));
+                    o.group = groups[i % 3];
+                    W.items.push_back(o);
+                    auto t = Item::tog(std::string("tog-") + static_cast<char>('a' + i), std::string(1, static_cast<char>('A' + i)), i % 2 == 0);
+                    t.group = groups[(i + 1) % 3];
+                    W.items.push_back(t);
+                }
+                W.accepted = 1;
+                for (size_t len : { 27u, 65u, 257u, 1000u })
+                    for (char odd : { 'q', '#', '\xe9', '=', '1' })
+                        for (int where = 0; where < 3; where++)
+                        {
+                            std::string b;
+                            for (size_t i = 0; i < len; i++)
+                                b += static_cast<char>('A' + (i * 7) % 26);
+                            size_t at = where == 0 ? 0 : where == 1 ? len / 2 : len - 1;
+                            if (odd == '=' && at == 0)
+                                continue; // `-=...` is a malformed token, not a bundle
+                            b[at] = odd;
+                            for (auto av : { std::vector<std::string>{ "-" + b }, std::vector<std::string>{ "-" + b, "value" }, std::vector<std::string>{ "--tog-a", "-" + b, "--opt-c=1" } })
+                            {
+                                long idx = ctx.next;
+                                ctx.each([&] { return chk.describe(W, av, {}); }, [&](mc::Report& rep) { chk.run_case(W, av, {}, rep, idx); });
+                            }
+                        }
+                // long unknown names that extend a declared one, and every declared item once (all accounted for)
+                std::vector<std::string> all;
+                for (auto& it : W.items)
+                    all.push_back(it.kind == 't' ? "-" + it.sh : "--" + it.name + "=v");
+                for (auto av : { all, std::vector<std::string>{ "--tog-a" + std::string(300, 'x') }, std::vector<std::string>{ "--opt-b" + std::string(300, 'x') + "=1" },
+                                 std::vector<std::string>{ "--no-tog-b" }, std::vector<std::string>{ "--no-tog-a" + std::string(40, 'y') } })
+                {
+                    long idx = ctx.next;
+                    ctx.each([&] { return chk.describe(W, av, {}); }, [&](mc::Report& rep) { chk.run_case(W, av, {}, rep, idx); });
+                }
+            }
             // the parser was used before its declaration was complete (items or short names added through kept references
             // after usage() and warm-up parses), or held the neighbouring declaration before: every 9th declaration of the grid
             for (size_t di = 0; di < decls.size(); di += 9)
